@@ -167,6 +167,26 @@ func c15One(kind string, input string, docs []*impl.Binding) (msg string) {
 	return ""
 }
 
+// c15EncodingLabels is the catalogue of charset names tried in declarations.
+func c15EncodingLabels() []string {
+	base := []string{
+		"UTF-8", "utf8", "UTF-16", "UTF-16LE", "UTF-16BE", "UTF-32", "UTF-32LE", "UTF-32BE", "UTF-7", "CESU-8", "SCSU", "BOCU-1", "UCS-2", "UCS-4", "ISO-10646-UCS-2", "ISO-10646-UCS-4", "UNICODE-1-1", "UNICODE-1-1-UTF-7",
+		"US-ASCII", "ASCII", "ANSI_X3.4-1968", "ISO-8859-1", "latin1", "l1", "ISO_8859-1:1987", "ISO-8859-2", "ISO-8859-3", "ISO-8859-4", "ISO-8859-5", "ISO-8859-6", "ISO-8859-6-E", "ISO-8859-6-I", "ISO-8859-7", "ISO-8859-8", "ISO-8859-8-I", "ISO-8859-8-E", "ISO-8859-9", "ISO-8859-10", "ISO-8859-11", "ISO-8859-12", "ISO-8859-13", "ISO-8859-14", "ISO-8859-15", "ISO-8859-16",
+		"windows-1250", "windows-1251", "windows-1252", "windows-1253", "windows-1254", "windows-1255", "windows-1256", "windows-1257", "windows-1258", "windows-874", "windows-31J", "cp1252", "cp437", "cp850", "cp866", "IBM037", "IBM273", "IBM437", "IBM500", "IBM850", "IBM852", "IBM855", "IBM858", "IBM860", "IBM862", "IBM863", "IBM865", "IBM866", "IBM1026", "IBM1047", "IBM1140", "EBCDIC-US", "EBCDIC-CP-US",
+		"KOI8-R", "KOI8-U", "macintosh", "x-mac-cyrillic", "x-user-defined", "replacement", "TIS-620", "VISCII", "HP-ROMAN8", "DEC-MCS", "NATS-SEFI", "T.61-8bit", "JIS_X0201", "Adobe-Standard-Encoding",
+		"Shift_JIS", "EUC-JP", "ISO-2022-JP", "ISO-2022-JP-2", "ISO-2022-KR", "ISO-2022-CN", "ISO-2022-CN-EXT", "EUC-KR", "EUC-TW", "GBK", "GB2312", "GB18030", "HZ-GB-2312", "Big5", "Big5-HKSCS", "KS_C_5601-1987", "csShiftJIS", "csUnicode", "csUTF8",
+		"no-such-charset", "", " ", "utf-8 ", " utf-8", "UTF\u20118", "utf_8", "8", "x", "-", "\x00", "\xff", "&amp;", "<", "'", "a\"b", "UTF-8\x00ISO-8859-1",
+	}
+	out := append([]string{}, base...)
+	for _, l := range base {
+		if lo := strings.ToLower(l); lo != l {
+			out = append(out, lo)
+		}
+	}
+	out = append(out, strings.Repeat("u", 5000))
+	return out
+}
+
 var c15Queries = func() []*xsel.Grammar {
 	var out []*xsel.Grammar
 	for _, e := range []string{"//node() | //@* | //namespace::*", "string(/)", "count(//*[last()]/ancestor::node())", "//*[1]/following::node()[1] | //text()/preceding::*[1]", "name(/*) = local-name(//*[last()])", "sum(//*) + string-length(//@*)"} {
@@ -465,6 +485,41 @@ func C15(c *run.Check) {
 		})
 		c.Distinct("unmarshal-sweep")
 	}
+	// encoding labels: every label of a catalogue of charset names (supported,
+	// registered but unsupported, legacy multi-byte, stateful, unknown, odd
+	// spellings) in the XML declaration and in an HTML <meta charset>, over an
+	// ASCII body and bodies with high / invalid bytes
+	if c.Violations() == 0 {
+		bodies := []string{"<a x='1'>t</a>", "<a>caf\xe9 \xa4</a>", "<a>\xff\xfe\x00<\x00</a>", "<a>\xc3\xa9\xe2\x82\xac</a>", ""}
+		type lj struct{ label, body string }
+		var jobs []lj
+		for _, l := range c15EncodingLabels() {
+			for _, b := range bodies {
+				jobs = append(jobs, lj{l, b})
+			}
+		}
+		run.ParallelW(len(jobs), func(_, i int) {
+			if c.Violations() > 0 {
+				return
+			}
+			j := jobs[i]
+			inputs := [][2]string{
+				{"xml-bytes", `<?xml version="1.0" encoding="` + j.label + `"?>` + j.body},
+				{"xml-bytes", `<?xml version='1.0' encoding='` + j.label + `' standalone='yes'?>` + "\n" + j.body},
+				{"html-tokens", `<!doctype html><meta charset="` + j.label + `"><p>` + j.body},
+				{"html-tokens", `<!doctype html><meta http-equiv="Content-Type" content="text/html; charset=` + j.label + `"><p>` + j.body},
+			}
+			for _, in := range inputs {
+				c.Evaluations.Add(1)
+				if msg := c15One(in[0], in[1], nil); msg != "" {
+					c.Violation(c15Case{Kind: in[0], Input: strconv.Quote(in[1]), Detail: msg}, fmt.Sprintf("[encoding label] %s %q: %s", in[0], in[1], msg))
+					return
+				}
+			}
+		})
+		c.Set("encoding_labels", len(c15EncodingLabels()))
+		c.Distinct("encoding-labels")
+	}
 	// nesting depth sweeps in subprocesses (a stack overflow kills the process)
 	if c.Violations() == 0 {
 		depths := []int{10, 100, 400}
@@ -498,7 +553,7 @@ func C15(c *run.Check) {
 	c.Sample(map[string]string{"kind": "xml-bytes", "input": "<a x=\"&#"})
 	c.Sample(map[string]string{"kind": "expr-tokens", "input": "u() | $n [ boom() ]"})
 	c.Sample(map[string]string{"kind": "json-bytes", "input": "{\"a\":[1e"})
-	c.Rule = "ALL strings up to a length bound over five alphabets, in worker subprocesses: expression token strings (C08 alphabet + nil variable, user functions returning (nil,nil) / an error / panicking, huge numbers) built AND executed on 2 documents under 3 binding sets; expression byte strings (incl. invalid UTF-8, NUL, and valid 2-, 4- and 9-byte characters/names); XML, JSON byte strings and HTML token strings through ReadXml/ReadJson/ReadHtml followed by 6 queries on whatever tree comes back; the well-typed C01/C08 expression universes from every node must never give an 'xpath query panic' error; Unmarshal of 7 result shapes (empty/1/2/all nodes, string, number, boolean) into 8 target shapes (*S, **S, *[]S, *[]T, *T, **S with nil inner pointer, typed nil, non-pointer) for 50 field types (incl. defined types such as a named int64, float64, string, []string) x 12/30 tag expressions; nesting-depth sweeps (parentheses, predicates, steps, unions, expression nesting up to 400/2000, document depth/width up to 400/100000) in subprocesses. Oracle: the call returns, with (non-nil value, nil) or (_, non-nil error); no panic escapes; the process survives"
+	c.Rule = "ALL strings up to a length bound over five alphabets, in worker subprocesses: expression token strings (C08 alphabet + nil variable, user functions returning (nil,nil) / an error / panicking, huge numbers) built AND executed on 2 documents under 3 binding sets; expression byte strings (incl. invalid UTF-8, NUL, and valid 2-, 4- and 9-byte characters/names); XML, JSON byte strings and HTML token strings through ReadXml/ReadJson/ReadHtml followed by 6 queries on whatever tree comes back; the well-typed C01/C08 expression universes from every node must never give an 'xpath query panic' error; Unmarshal of 7 result shapes (empty/1/2/all nodes, string, number, boolean) into 8 target shapes (*S, **S, *[]S, *[]T, *T, **S with nil inner pointer, typed nil, non-pointer) for 50 field types (incl. defined types such as a named int64, float64, string, []string) x 12/30 tag expressions; every label of a catalogue of charset names (supported, registered but unsupported, stateful, unknown, odd spellings) in XML declarations and HTML meta elements over 5 bodies; nesting-depth sweeps (parentheses, predicates, steps, unions, expression nesting up to 400/2000, document depth/width up to 400/100000) in subprocesses. Oracle: the call returns, with (non-nil value, nil) or (_, non-nil error); no panic escapes; the process survives"
 	c.Assume("bounded exhaustive, not coverage-guided: crashing inputs whose shortest form is longer than the bound are out of reach; the values Unmarshal produces are decided by C19")
 }
 
